@@ -190,6 +190,7 @@ func (*c09) Corpus() []any {
 		out = append(out, base[7].mk(b, []int{0, 0, 0, 0, 0, 0, 0, 0, 0, 0, 1, 0, 1, 0, 1}))
 		// K-C09-2: the automatic rollback of a failed --atomic upgrade races the other upgrade
 		out = append(out, base[7].mk(b, []int{0, 0, 0, 0, 0, 1, 0, 1, 1, 1, 0, 0, 1, 0, 0, 0, 0, 0}))
+		out = append(out, c9mixCorpus(b)...)
 	}
 	return out
 }
@@ -220,7 +221,7 @@ func (*c09) Exhaustive(tier string) []any {
 				}
 			}
 		}
-		return out
+		return append(out, c9mixExhaustive(r, tier)...)
 	}
 	for i, s := range c9base() {
 		b := c9backends[i%len(c9backends)]
@@ -236,7 +237,7 @@ func (*c09) Exhaustive(tier string) []any {
 			out = append(out, s.mk(b, sch))
 		}
 	}
-	return out
+	return append(out, c9mixExhaustive(r, tier)...)
 }
 
 func (*c09) Generate(r *rand.Rand, i int) any {
@@ -277,6 +278,7 @@ func (*c09) Generate(r *rand.Rand, i int) any {
 		c.Ops = append(c.Ops, op)
 		notes = append(notes, kind)
 	}
+	notes = append(notes, c9genMix(r, &c, npre)...)
 	if r.Intn(6) == 0 {
 		// one rejected mutating request, on a resource of one of the charts or of the prefix
 		var keys []string
@@ -328,17 +330,31 @@ func coqNats(l []int) string {
 
 func c9kinds(c conc.Case) string {
 	var k []string
-	for _, op := range c.Ops {
+	for i, op := range c.Ops {
 		s := op.Kind
 		if op.Flags.Replace {
 			s += "-replace"
+		}
+		if op.Flags.IsDry() {
+			s += "-dry"
+		}
+		if op.Flags.MaxHistory > 0 {
+			s += fmt.Sprintf("-mh%d", op.Flags.MaxHistory)
+		}
+		if op.Flags.KeepHistory {
+			s += "-keep"
+		}
+		if x := c.ExtOf(i); x.Force {
+			s += "+force"
+		} else if x.Any() {
+			s += "+opts"
 		}
 		k = append(k, s)
 	}
 	return strings.Join(k, "|")
 }
 
-func (*c09) Class(ci, _ any) string {
+func (*c09) Class(ci, oi any) string {
 	c := ci.(conc.Case)
 	if c.Probe != "" {
 		return "probe/" + c.Probe
@@ -346,6 +362,9 @@ func (*c09) Class(ci, _ any) string {
 	f := ""
 	if c9hasFault(c) {
 		f = "/fault"
+	}
+	if o, ok := oi.(conc.Obs); ok && c9isMix(c) && c9deployed(o) > 1 {
+		f += "/observed:two-deployed" // outside the property text (a rollback / uninstall takes part): an observation, see notes/C09.md
 	}
 	return fmt.Sprintf("pre%d/%s/%s%s", len(c.Pre), c9kinds(c), c.Backend, f)
 }
@@ -424,28 +443,50 @@ func (*c09) Oracle(ci, oi any) []hx.Violation {
 				i, oo.FirstLast, oo.Outcome, oo.Created, oo.MutCalls))
 		}
 	}
-	// (2) an operation that created no revision is inert and fails with the right class
+	// (2) an operation that created no revision is inert and fails with the right class.
+	// The property text speaks of install and upgrade operations; when a rollback or an uninstall
+	// runs beside them (a "mix"), the clause still binds the install / upgrade participants; a
+	// rollback that created nothing must be inert as well (its error classes are its own); an
+	// uninstall creates nothing and deletes the release's resources by design.
+	mix := c9isMix(c)
+	uninstalling := false
+	for _, op := range c.Ops {
+		if op.Kind == "uninstall" {
+			uninstalling = true
+		}
+	}
 	for i, oo := range o.Ops {
-		if len(oo.Created) > 0 || c.Ops[i].Flags.IsDry() {
+		kind := c.Ops[i].Kind
+		if kind == "uninstall" || len(oo.Created) > 0 || c.Ops[i].Flags.IsDry() {
 			continue
 		}
 		if oo.MutCalls > 0 || len(oo.Muts) > 0 {
 			add("C09:loser-mutated-cluster", fmt.Sprintf("operation %d (%s) created no revision (%s) but issued %d mutating cluster calls: %v",
-				i, c.Ops[i].Kind, oo.Outcome, oo.MutCalls, oo.Muts))
+				i, kind, oo.Outcome, oo.MutCalls, oo.Muts))
+		}
+		if len(oo.Refused) > 0 && oo.Outcome != "err:exists" {
+			add("C09:exists-not-reported", fmt.Sprintf("operation %d: the create of revision %v was refused but it returned %q", i, oo.Refused, oo.Outcome))
+		}
+		if kind == "rollback" {
+			continue
 		}
 		switch oo.Outcome {
 		case "err:exists", "err:pending", "err:name-in-use":
 		case "err:no-deployed":
-			if !startEmpty {
-				add("C09:loser-error-class", fmt.Sprintf("operation %d (%s) created no revision and returned %q", i, c.Ops[i].Kind, oo.ErrText))
+			// an upgrade of a release that does not exist (or, in a mix, that an uninstall is taking / has taken away)
+			if !startEmpty && !uninstalling {
+				add("C09:loser-error-class", fmt.Sprintf("operation %d (%s) created no revision and returned %q", i, kind, oo.ErrText))
 			}
 		case "ok":
-			add("C09:loser-reported-success", fmt.Sprintf("operation %d (%s) created no revision but reported success", i, c.Ops[i].Kind))
+			add("C09:loser-reported-success", fmt.Sprintf("operation %d (%s) created no revision but reported success", i, kind))
 		default:
-			add("C09:loser-error-class", fmt.Sprintf("operation %d (%s) created no revision and returned %q", i, c.Ops[i].Kind, oo.ErrText))
-		}
-		if len(oo.Refused) > 0 && oo.Outcome != "err:exists" {
-			add("C09:exists-not-reported", fmt.Sprintf("operation %d: the create of revision %v was refused but it returned %q", i, oo.Refused, oo.Outcome))
+			sig := "C09:loser-error-class"
+			if c.Ops[i].Flags.MaxHistory > 0 && strings.Contains(oo.ErrText, "deletion errors") {
+				// K-C09-4: two upgrades prune the same old revisions inside Storage.Create; the one whose deletes
+				// find them gone twice gives up with the accumulated deletion errors (inert, but not one of the two promised errors)
+				sig = "C09:loser-error-class-concurrent-pruning-deletion-errors"
+			}
+			add(sig, fmt.Sprintf("operation %d (%s) created no revision and returned %q", i, kind, oo.ErrText))
 		}
 	}
 	// (3) quiescence: unique revisions, at most one deployed
@@ -460,7 +501,11 @@ func (*c09) Oracle(ci, oi any) []hx.Violation {
 			nd++
 		}
 	}
-	if nd > 1 {
+	// "at most one deployed once all have returned" is promised for install / upgrade participants;
+	// with a rollback (no pending check: K-C09-2) or an uninstall (marks the last revision
+	// "uninstalling", which is not a pending status) beside them it does not hold — documented
+	// observation (Class() counts it, the model reproduces it: C09_mix_*_refuted), not a violation
+	if nd > 1 && !mix {
 		sig := "C09:two-deployed"
 		atomicUp := false
 		for _, op := range c.Ops {
@@ -474,7 +519,17 @@ func (*c09) Oracle(ci, oi any) []hx.Violation {
 				failedLast = true
 			}
 		}
+		pruning := false
+		for _, op := range c.Ops {
+			if op.Kind == "upgrade" && op.Flags.MaxHistory > 0 {
+				pruning = true
+			}
+		}
 		switch {
+		case pruning && !replace && !c9hasFault(c):
+			// K-C09-3: Storage.Create prunes and then creates, not atomically; a pruner with max-history 1 or 2 deletes the
+			// newest revision (the other upgrade's pending record, or the failed last revision, so that "last+1" goes back)
+			sig = "C09:two-deployed-history-pruning-races-upgrade"
 		case replace && failedLast:
 			sig = "C09:two-deployed-install-replace-over-failed-last" // = K1 of C01, sequential
 		case replace && startEmpty:
